@@ -4,7 +4,9 @@ Proof obligations: Properties/C20.v (theorems over every ordered field, about th
 from /repo on this run).  Correspondence: the translated code is executed at Qc inside Coq on the same
 histories the real RewardScaler / ExponentialBaseline / WarmupBaseline classes were driven through.
 Search (when either breaks): the property itself is evaluated on the implementation's outputs with exact
-rational arithmetic (mean = sum/n, M2 = sum of squared deviations, EMA recurrence, convex combination)."""
+rational arithmetic (mean = sum/n, M2 = sum of squared deviations, EMA recurrence, convex combination).
+RewardScaler.__call__ on single-valued histories (variance 0: factor std + eps = eps exactly) is compared EXACTLY, in Coq
+(Harness/HC20.v check_call_zero_var, theorems C20_scaler_*_zero_variance) and against x / eps resp. 0."""
 import math
 from fractions import Fraction
 
@@ -42,7 +44,7 @@ def run(ctx: Ctx, proofs_ok: bool):
     n_hist = 400 if tier == "thorough" else 120
     ctx.rule = ("histories of 1..30 batches (quick 1..12) of sizes 1..17 with dyadic values (k/64 times 1, 64 or 2^20), "
                 "20% constant batches, float64 and float32; EMA histories with dyadic beta; warm-up with n_epochs 1..6 and "
-                "0..8 epoch callbacks. non-trivial = at least 2 batches (scaler/EMA) or 0<alpha<1 (warm-up); distinct by hash of the inputs")
+                "0..8 epoch callbacks; __call__ additionally on single-valued histories (first batch of 1,2,4,8,16 values, later batches 1..17, float32 and float64, both modes). non-trivial = at least 2 batches (scaler/EMA) or 0<alpha<1 (warm-up); distinct by hash of the inputs")
     ctx.trusted.append("translator/py2gallina.py (whitelist; meaning of .sum(), .mean(), len, scalar-vector broadcasting)")
     ctx.assumptions += ["sqrt is torch's (abstract function in the model); count = 1 (division by zero in the code) excluded",
                         "float rounding: implementation compared with the exact model within a per-case tolerance"]
@@ -153,6 +155,68 @@ def run(ctx: Ctx, proofs_ok: bool):
         ctx.seen({"call": hist, "m": mode}, nontrivial=len(hist) >= 2)
     ctx.count("scaler_call_histories", ncall)
     ctx.units["RewardScaler.__call__"] = {"cases": ncall}
+
+    # ------------------------------------------------------------------ __call__ on single-valued histories (variance 0)
+    # Every value observed so far is the same dyadic number v, so M2 = 0, std = sqrt(0) = 0 and the scaling factor
+    # std + eps is EXACTLY eps: 'scale' returns v / eps (a power-of-two scaling, exact in floating point), 'norm' returns 0.
+    # The first batch has a power-of-two size (v / k summed k times is then exact, so mean = v and M2 = 0 exactly);
+    # later batches have any size (delta = v - mean = 0).  Compared exactly, in Coq (model at Qc, sq 0 = 0) and here.
+    cases, meta = [], []
+    zrng = __import__("random").Random("C20-zero-variance-%s" % ctx.seed)    # own stream: the histories above/below stay as they were
+    n_zero = 24 if tier == "quick" else 96
+    for i in range(n_zero):
+        mode = "scale" if i % 2 == 0 else "norm"
+        kind = "f32" if (i // 2) % 2 == 0 else "f64"
+        dt = torch.float32 if kind == "f32" else torch.float64
+        eps = Fraction(float(torch.finfo(dt).eps))
+        if i == 0:
+            v, sizes = 2.0, [4]                       # cf. the sweep's input RewardScaler('scale')([2,2,2]) -> 2 / 2^-23 = 16777216
+        else:
+            v = zrng.choice([-1, 1]) * zrng.randint(0 if i % 7 == 3 else 1, 256) / 64.0 * zrng.choice([1, 64])
+            sizes = [zrng.choice([1, 2, 4, 8, 16])] + [zrng.randint(1, 17) for _ in range(zrng.randint(0, 3))]
+            if sum(sizes) < 2:
+                sizes.append(zrng.randint(1, 9))
+        sc = RewardScaler(scale=mode)
+        steps, seen_n, bad = [], 0, None
+        for k in sizes:
+            b = [v] * k
+            out = sc(torch.tensor(b, dtype=dt))
+            seen_n += k
+            got = [float(x) for x in out]
+            steps.append((b, got))
+            if seen_n < 2:
+                continue                              # count = 1: the code divides 0 by 0 (nan), excluded as in the theorems
+            exp = [float(Fraction(v) / eps)] * k if mode == "scale" else [0.0] * k
+            if bad is None and (got != exp or any(math.isnan(g) for g in got)):
+                bad = {"unit": "RewardScaler.__call__", "mode": mode, "dtype": kind, "history": [[v] * s for s in sizes[:len(steps)]],
+                       "batch": b, "observed": got, "expected": exp, "eps": float(eps),
+                       "what": "zero-variance history: std = 0, so the scaling factor std + eps is eps and the output is "
+                               + ("x / eps" if mode == "scale" else "(x - mean) / eps = 0")}
+        if bad is not None:
+            spec_fail.append(bad)
+        if all(math.isfinite(g) for _, got in steps[(1 if sizes[0] == 1 else 0):] for g in got):
+            cases.append("(%s, %s, %s)" % ("true" if mode == "norm" else "false", cq(eps),
+                                           clist("(%s, %s)" % (clist(cq(Fraction(x)) for x in b),
+                                                               clist(cq(Fraction(g) if math.isfinite(g) else Fraction(0)) for g in got))
+                                                 for b, got in steps)))
+            meta.append({"unit": "RewardScaler.__call__/zero-variance", "mode": mode, "dtype": kind, "value": v, "batches": sizes})
+        ctx.seen({"zero_var": [mode, kind, v, sizes]}, nontrivial=True)
+        ctx.count("scaler_call_zero_variance_histories")
+        if i == 0:
+            ctx.sample({"unit": "RewardScaler.__call__", "mode": mode, "dtype": kind, "history": [[v] * s for s in sizes],
+                        "impl_out_last": steps[-1][1]})
+    try:
+        codes = coq_eval_shards("cases_C20_zerovar", HEADER, "bool * Q * list (list Q * list Q)", "check_call_zero_var", cases, shard=40)
+    except RuntimeError as e:
+        codes = None
+        ctx.broken.append("correspondence C20/scaler_call_zero_variance could not be evaluated: %s" % str(e)[-600:])
+    if codes is not None:
+        nz = [(i, c) for i, c in enumerate(codes) if c != 0]
+        ctx.units["RewardScaler.__call__ (zero variance)"] = {"cases": len(codes), "disagreements": len(nz)}
+        if nz:
+            i, c = nz[0]
+            ctx.broken.append("correspondence C20/scaler_call_zero_variance: model and implementation differ (case %d, code %d: step %d, "
+                              "9 = model variance not 0, 10 = output) %s" % (i, c, c // 1000, meta[i]))
 
     # ------------------------------------------------------------------ ExponentialBaseline / MeanBaseline
     cases, meta = [], []
